@@ -478,7 +478,7 @@ class LDA:
         for d in self._dims:
             ctx().facts.append(ext[d].z <= self._ext[d].z)
             ctx().facts.append(ext[d].z >= 0)
-        return self._new(("kept", self.val), None, ext, co)
+        return self._new(("kept", self.val, getattr(cond, "val", cond)), None, ext, co)
 
     def dropna(self, dim, **kw):
         self._force("dropna")
